@@ -249,6 +249,14 @@ fn candidates(g: &Game, deal: &Deal, rng: &mut Rng, all_amounts: bool) -> Vec<Ac
     if board != 0 {
         v.push(Action::Draw(hand(rng.cards(want - 1, full & !in_play) | lowest(board)))); // a board card again
     }
+    // the other card of each hole, and the highest board card (each card in play separately matters:
+    // a membership test against only one seat's cards would let the other seat's cards through)
+    let highest = |m: u64| 1u64 << (63 - m.leading_zeros());
+    v.push(Action::Draw(hand(rng.cards(want - 1, full & !in_play) | highest(deal.h0))));
+    v.push(Action::Draw(hand(rng.cards(want - 1, full & !in_play) | lowest(deal.h1))));
+    if board != 0 {
+        v.push(Action::Draw(hand(rng.cards(want - 1, full & !in_play) | highest(board))));
+    }
     // right-sized deals containing a card that is not a card of the 52-card deck at all (raw
     // `Card::from(52..=63)`; `Hand::from(u64)` would mask it away, `Hand::from(Card)` does not)
     for n in [52u8, 55, 63, 52 + rng.below(12) as u8] {
@@ -329,6 +337,13 @@ fn probe(cx: &mut Ctx, rng: &mut Rng, deal: &Deal, deal_id: u64, hist: &[Action]
             match r {
                 None => cx.run.fail("accepted-action-panics", &format!("game {name} {}", act_tok(c)), "a state", "panic"),
                 Some(child) => {
+                    if let Action::Draw(_) = c {
+                        let ch = child;
+                        let ok = catch(move || { let s = ch.verif_seats(); let (a, b, d) = (bits(Hand::from(s[0].4)), bits(Hand::from(s[1].4)), board_bits(&ch)); a & b == 0 && a & d == 0 && b & d == 0 }).unwrap_or(false);
+                        if !ok {
+                            cx.run.fail("cards-overlap-after-accepted-draw", &format!("game {name} {}", act_tok(c)), "holes and board pairwise disjoint", &safe_state_line(&child));
+                        }
+                    }
                     let n2 = nl.apply(c);
                     let n3 = n2.clone();
                     let same = catch(move || n3.same_as(&child) && n3.same_turn(&child)).unwrap_or(false);
